@@ -244,20 +244,21 @@ Proof.
   cbn in Hid. unfold scan_item_impl, scan_item. cbn. rewrite Hid. reflexivity.
 Qed.
 
-Lemma int_of_uint64_small n : n < 9223372036854775808 -> int_of_uint64 n = Z.of_N n.
-Proof. intros H. unfold int_of_uint64. assert (E : (Z.of_N n <? 9223372036854775808)%Z = true) by lia. rewrite E. reflexivity. Qed.
+Lemma count_shortcut n cursor lim :
+  (if lim <? (if n <=? cursor then 0 else n - cursor) then lim else (if n <=? cursor then 0 else n - cursor)) = N.min (n - cursor) lim.
+Proof. destruct (n <=? cursor) eqn:E1; destruct (lim <? _) eqn:E2; lia. Qed.
 
 Lemma scan_refines e s key cursor limit globs desc out nofields :
-  inv s -> cursor < 9223372036854775808 -> refines e s (QScan key cursor limit globs desc out nofields).
+  inv s -> refines e s (QScan key cursor limit globs desc out nofields).
 Proof.
-  intros Hi Hcur s' r u H. cbn [run_req] in H. cbn [sexec]. rewrite abs_get.
+  intros Hi s' r u H. cbn [run_req] in H. cbn [sexec]. rewrite abs_get.
   destruct (get key s) as [c|] eqn:Ek; cbn [option_map]; [|fin H; split; [reflexivity | exact Hi]].
   assert (HcF : Forall obj_ok c) by (exact (proj2 (proj2 (inv_get _ _ _ Hi Ek)))).
   assert (Hk : keys (abs_col c) = keys c) by (unfold abs_col; apply keys_map).
   rewrite Hk, absc_length.
   destruct (out =? OUT_COUNT).
   - destruct (glob_everything globs).
-    + fin H. rewrite (int_of_uint64_small cursor Hcur). split; [reflexivity | exact Hi].
+    + fin H. cbv zeta. rewrite count_shortcut. split; [reflexivity | exact Hi].
     + destruct (scan_select matchesb (keys c) cursor (if limit =? 0 then max_uint64 else limit) globs desc) as [ids cur].
       fin H. split; [reflexivity | exact Hi].
   - destruct (scan_select matchesb (keys c) cursor (Cursor.eff_limit limit) globs desc) as [ids cur].
@@ -497,7 +498,6 @@ Definition req_ok (q : req) : Prop :=
   match q with
   | QPdel _ pat => prefix_ends_ff pat = false
   | QKeys pat => prefix_ends_ff pat = false
-  | QScan _ cursor _ _ _ _ _ => cursor < 9223372036854775808   (* finding C01-scan-count-cursor *)
   | _ => True
   end.
 
@@ -522,7 +522,7 @@ Proof.
   - apply ttl_refines; exact Hi.
   - apply type_refines; exact Hi.
   - apply keys_refines; [exact Hi | exact Hq].
-  - apply scan_refines; [exact Hi | exact Hq].
+  - apply scan_refines; exact Hi.
   - apply jget_refines; exact Hi.
 Qed.
 
